@@ -366,7 +366,68 @@ fn check_hub(c: &HubCase, obs: &mut Obs) -> Result<(), String> {
     check_pair_diags(&c.pair, dg, dh, obs)
 }
 
+/// diagrams whose spiders carry boolean variables (a phase gains pi where the parity is odd):
+/// composing and then substituting values must equal substituting and then composing
+fn check_pair_vars<G: GraphLike>(dg: &Diag, dh: &Diag, pg: &IdPlan, ph: &IdPlan, name: &str, obs: &mut Obs) -> Result<(), String> {
+    let (g, _) = build::<G>(dg, pg);
+    let (h, _) = build::<G>(dh, ph);
+    let mut plugged = g.clone();
+    guarded(&format!("{name}: plug (diagrams with variables)"), || plugged.plug(&h))?;
+    let mut appended = g.clone();
+    let vmap = guarded(&format!("{name}: append_graph (diagrams with variables)"), || appended.append_graph(&h))?;
+    let mut ins = appended.inputs().clone();
+    let mut outs = appended.outputs().clone();
+    for i in h.inputs() {
+        ins.push(*vmap.get(i).ok_or("append_graph map lacks an input")?);
+    }
+    for o in h.outputs() {
+        outs.push(*vmap.get(o).ok_or("append_graph map lacks an output")?);
+    }
+    appended.set_inputs(ins);
+    appended.set_outputs(outs);
+    let adj = guarded(&format!("{name}: to_adjoint (diagram with variables)"), || g.to_adjoint())?;
+    let sp = crate::oracle::diag::snapshot(&plugged)?.diag;
+    let sa = crate::oracle::diag::snapshot(&appended)?.diag;
+    let sj = crate::oracle::diag::snapshot(&adj)?.diag;
+    for bits in [0u32, 0b0101, 0b1010, 0b1111, 0b0110] {
+        let sigma = move |x: u32| (bits >> (x % 4)) & 1 == 1;
+        let (Ok(tg), Ok(th)) = (eval::<Zw>(&dg.instantiate(&sigma)), eval::<Zw>(&dh.instantiate(&sigma))) else {
+            obs.skip("oracle");
+            return Ok(());
+        };
+        let what = format!("{name}: variables set to {bits:04b}");
+        match eval::<Zw>(&sp.instantiate(&sigma)) {
+            Ok(got) => Zw::same(&compose(&tg, &th), &got).map_err(|e| format!("{what}: plug(g,h) then substitution differs from substitution then composition: {e}"))?,
+            Err(EvalErr::TooBig) => obs.skip("oracle-too-big"),
+            Err(e) => return Err(format!("{what}: plug result malformed: {e:?}")),
+        }
+        if tg.rank() + th.rank() <= 11 {
+            match eval::<Zw>(&sa.instantiate(&sigma)) {
+                Ok(got) => Zw::same(&tensor_product(&tg, &th), &got).map_err(|e| format!("{what}: append_graph then substitution differs from substitution then tensor product: {e}"))?,
+                Err(EvalErr::TooBig) => obs.skip("oracle-too-big"),
+                Err(e) => return Err(format!("{what}: append result malformed: {e:?}")),
+            }
+        }
+        match eval::<Zw>(&sj.instantiate(&sigma)) {
+            Ok(got) => Zw::same(&dagger(&tg), &got).map_err(|e| format!("{what}: adjoint then substitution differs from substitution then conjugate transpose: {e}"))?,
+            Err(EvalErr::TooBig) => obs.skip("oracle-too-big"),
+            Err(e) => return Err(format!("{what}: adjoint malformed: {e:?}")),
+        }
+    }
+    obs.class("with-variables");
+    Ok(())
+}
+
 fn check_pair_diags(c: &PairCase, dg: Diag, dh: Diag, obs: &mut Obs) -> Result<(), String> {
+    if dg.has_vars() || dh.has_vars() {
+        // the linear-algebra clauses below quantify over closed-form diagrams; parametrised ones
+        // are checked assignment by assignment
+        if dg.all_phases_quarter() && dh.all_phases_quarter() && dg.scalar.is_exact() && dh.scalar.is_exact() {
+            check_pair_vars::<quizx::vec_graph::Graph>(&dg, &dh, &c.g.plan, &c.h.plan, "vec", obs)?;
+            check_pair_vars::<quizx::hash_graph::Graph>(&dg, &dh, &c.g.plan, &c.h.plan, "hash", obs)?;
+        }
+        return Ok(());
+    }
     let seam_h = dg
         .outputs
         .iter()
@@ -844,6 +905,17 @@ pub fn def(ctx: &Ctx) -> PropertyDef {
             move || {
                 (diag_spec(dp(Palette::General)), diag_spec(dp(Palette::General)))
                     .prop_map(|(g, h)| PairCase { g, h })
+            },
+            check_pair,
+        ),
+        Section::random(
+            "pairs-parametrised",
+            ctx.cases(600, 12000),
+            move || {
+                let mut p = dp(Palette::ExactT);
+                p.max_vars = 4;
+                p.var_prob = 40;
+                (diag_spec(p.clone()), diag_spec(p)).prop_map(|(g, h)| PairCase { g, h })
             },
             check_pair,
         ),
